@@ -565,14 +565,23 @@ def exception_brackets_kernel(exc: str, nargs: int, has_kw: bool, pos: int, rebi
     return trees_equal(cap.tree, build())
 
 
-def literal_doc_kernel(nm: str, as_attr: bool, in_def: bool) -> bool:
+def literal_doc_kernel(nm: str, as_attr: bool, in_def: bool, how: int) -> bool:
     """
     pre: len(nm) <= 8
+    pre: 0 <= how <= 2
     post: _
     """
-    # docstrings are kept when the module uses the __doc__ name (as a name or as an attribute)
+    # docstrings are kept when the module uses the __doc__ name (as a name or as an attribute; read, augmented or deleted)
     def build():
         use = ast.Attribute(value=name('m'), attr=nm, ctx=ast.Load()) if as_attr else name(nm)
+        if how > 0:
+            ctx = ast.Store() if how == 1 else ast.Del()
+            tgt = ast.Attribute(value=name('m'), attr=nm, ctx=ctx) if as_attr else name(nm, ctx)
+            st = ast.AugAssign(target=tgt, op=ast.Add(), value=ast.Constant(value=' more')) if how == 1 else ast.Delete(targets=[tgt])
+            noargs = ast.arguments(posonlyargs=[], args=[], vararg=None, kwonlyargs=[], kw_defaults=[], kwarg=None, defaults=[])
+            fn = ast.FunctionDef(name='f', args=noargs, decorator_list=[], returns=None,
+                                 body=[ast.Expr(value=ast.Constant(value='function doc'))] + ([st] if in_def else []) + [ast.Return(value=ast.Constant(value=1))])
+            return ast.Module(body=[ast.Expr(value=ast.Constant(value='module doc')), fn] + ([] if in_def else [st]), type_ignores=[])
         noargs = ast.arguments(posonlyargs=[], args=[], vararg=None, kwonlyargs=[], kw_defaults=[], kwarg=None, defaults=[])
         fn = ast.FunctionDef(name='f', args=noargs, decorator_list=[], returns=None,
                              body=[ast.Expr(value=ast.Constant(value='function doc')), ast.Return(value=use if in_def else ast.Constant(value=1))])
